@@ -757,8 +757,9 @@ func (in *Interp) appendCall(st *State, call *ast.CallExpr) Val {
 			nb.Recs = append(nb.Recs, &Rec{Off: Const(0), W: baseLen, Kind: "bytes", Src: bb.Src, Pos: call.Pos(), Guard: in.guard()})
 			nb.Src = bb.Src
 			nb.SrcType = "field-append"
-			// … and, where the field's array has spare capacity, the appended bytes are written into it
-			if len(call.Args) > 1 {
+			// … and, where the field's array has spare capacity, the appended bytes are written into it (not
+			// through a full slice expression s[a:b:b], whose capacity is used up: append must reallocate)
+			if len(call.Args) > 1 && !fullSliceNoSpare(call.Args[0]) {
 				cr := &CallRec{Pos: call.Pos(), Guard: in.guard(), Text: "append-onto-field:" + bb.Src}
 				for i := in; i != nil; i = i.parent {
 					if i.parent == nil {
@@ -837,7 +838,7 @@ func (in *Interp) appendCall(st *State, call *ast.CallExpr) Val {
 	}
 	// appending onto a list of the receiver (or of an argument): where its array has spare capacity the
 	// new element is written into memory the value shares with whoever else holds that array
-	if root := sv.Path; root != "" && len(call.Args) > 1 && (strings.HasPrefix(root, "$.") || strings.HasPrefix(root, "arg:")) {
+	if root := sv.Path; root != "" && len(call.Args) > 1 && (strings.HasPrefix(root, "$.") || strings.HasPrefix(root, "arg:")) && !fullSliceNoSpare(call.Args[0]) {
 		cr := &CallRec{Pos: call.Pos(), Guard: in.guard(), Text: "append-onto-field:" + root}
 		for i := in; i != nil; i = i.parent {
 			if i.parent == nil {
@@ -1552,4 +1553,13 @@ func (in *Interp) parentGuard() string {
 		return ""
 	}
 	return in.parent.guard()
+}
+
+// fullSliceNoSpare: e is a full slice expression x[a:b:c] with b and c the same expression: len == cap.
+func fullSliceNoSpare(e ast.Expr) bool {
+	sl, ok := unparen(e).(*ast.SliceExpr)
+	if !ok || !sl.Slice3 || sl.High == nil || sl.Max == nil {
+		return false
+	}
+	return types.ExprString(sl.High) == types.ExprString(sl.Max)
 }
